@@ -68,7 +68,8 @@ theorem not_good_not_revoked (r : R) (hg : r.good = false) (hr : r ≠ .revoked)
 /-- **final_ok_iff**: the final result is OK exactly when every certificate is OK or non-revokable -/
 theorem final_ok_iff (rs : List R) : (revocationFinal rs).1 = .ok ↔ rs.all R.good = true := by
   have h := scan_spec rs 0
-  unfold revocationFinal
+  unfold revocationFinal revocationFinalFor aggregate
+  simp only [bne_self_eq_false, Bool.false_eq_true, if_false]
   by_cases hall : rs.all R.good = true
   · have : (scan rs 0).numOK = rs.length := by rw [h.numOK]; exact (countP_eq_length_iff rs).2 hall
     simp [this, hall]
@@ -100,7 +101,8 @@ theorem final_revoked (rs : List R) (hany : rs.any (· == .revoked) = true) :
     have := (countP_eq_length_iff rs).1 e
     rw [hall] at this; exact Bool.noConfusion this
   obtain ⟨n, h1, h2⟩ := h.revokedIdx hany
-  unfold revocationFinal
+  unfold revocationFinal revocationFinalFor aggregate
+  simp only [bne_self_eq_false, Bool.false_eq_true, if_false]
   simp only [h.revokedFound, hany, if_true, beq_iff_eq, hne, if_false]
   exact ⟨trivial, n, by simpa using h1, h2⟩
 
@@ -120,9 +122,18 @@ theorem final_unknown (rs : List R) (hall : rs.all R.good = false) (hany : rs.an
       apply List.any_eq_true.2
       exact ⟨R.revoked, List.mem_of_getElem? h2, by simp⟩
     rw [hany] at this; exact Bool.noConfusion this
-  unfold revocationFinal
+  unfold revocationFinal revocationFinalFor aggregate
+  simp only [bne_self_eq_false, Bool.false_eq_true, if_false]
   simp only [h.revokedFound, hany, Bool.false_eq_true, if_false, beq_iff_eq, hne]
   exact ⟨by rw [h4]; exact not_good_not_revoked r h3 hr, n, r, by simpa using h1, h2, h3⟩
+
+/-- **final_incomplete**: a validator that does not return exactly one result per certificate
+(fewer, none, or more) never lets the chain pass - fail closed -/
+theorem final_incomplete (n : Nat) (rs : List R) (h : rs.length ≠ n) :
+    revocationFinalFor n rs = (.unknown, none) := by
+  simp [revocationFinalFor, h]
+
+theorem final_complete (rs : List R) : revocationFinalFor rs.length rs = revocationFinal rs := rfl
 
 /-! ### the whole property -/
 
@@ -137,58 +148,67 @@ theorem model_holds (i : Input) : Holds i (run i) = true := by
     case true => simp [Clauses.holds] <;> decide
     all_goals
       simp only [Clauses.holds]
-      by_cases hall : i.vec.all R.good = true
-      · have hok := (final_ok_iff i.vec).2 hall
-        have hnr : i.vec.any (· == R.revoked) = false := by
-          apply Bool.eq_false_iff.2
-          intro hc
-          obtain ⟨x, hx, hxe⟩ := List.any_eq_true.1 hc
-          have := List.all_eq_true.1 hall _ hx
-          simp only [beq_iff_eq] at hxe
-          subst hxe
-          simp [R.good] at this
-        rcases hrf : revocationFinal i.vec with ⟨f, n⟩
-        rw [hrf] at hok
-        simp only at hok
-        subst hok
-        simp only [List.all_eq_true] at hall
-        simp only [List.any_eq_false, beq_iff_eq] at hnr
-        simp
-        try grind
-      · have hall' : i.vec.all R.good = false := by simpa using hall
-        by_cases hany : i.vec.any (· == R.revoked) = true
-        · obtain ⟨h1, n, h2, h3⟩ := final_revoked i.vec hany
-          rcases hrf : revocationFinal i.vec with ⟨f, m⟩
-          rw [hrf] at h1 h2
-          simp only at h1 h2
-          subst h1 h2
-          simp only [List.all_eq_false] at hall'
-          simp only [List.any_eq_true, beq_iff_eq] at hany
-          simp [h3]
+      by_cases hlen : i.vec.length = i.chainLen
+      · have hfor : revocationFinalFor i.chainLen i.vec = revocationFinal i.vec := by rw [← hlen]; rfl
+        have hc : (i.vec.length == i.chainLen) = true := by simp [hlen]
+        rw [hfor]
+        simp only [hc, Bool.true_and]
+        by_cases hall : i.vec.all R.good = true
+        · have hok := (final_ok_iff i.vec).2 hall
+          have hnr : i.vec.any (· == R.revoked) = false := by
+            apply Bool.eq_false_iff.2
+            intro hcc
+            obtain ⟨x, hx, hxe⟩ := List.any_eq_true.1 hcc
+            have := List.all_eq_true.1 hall _ hx
+            simp only [beq_iff_eq] at hxe
+            subst hxe
+            simp [R.good] at this
+          rcases hrf : revocationFinal i.vec with ⟨f, n⟩
+          rw [hrf] at hok
+          simp only at hok
+          subst hok
+          simp only [List.all_eq_true] at hall
+          simp only [List.any_eq_false, beq_iff_eq] at hnr
+          simp
           try grind
-        · have hany' : i.vec.any (· == R.revoked) = false := Bool.eq_false_iff.2 hany
-          obtain ⟨h1, n, r, h2, h3, h4⟩ := final_unknown i.vec hall' hany'
-          rcases hrf : revocationFinal i.vec with ⟨f, m⟩
-          rw [hrf] at h1 h2
-          simp only at h1 h2
-          subst h1 h2
-          simp only [List.all_eq_false] at hall'
-          simp only [List.any_eq_false, beq_iff_eq] at hany'
-          simp [h3, h4]
-          try grind
+        · have hall' : i.vec.all R.good = false := by simpa using hall
+          by_cases hany : i.vec.any (· == R.revoked) = true
+          · obtain ⟨h1, n, h2, h3⟩ := final_revoked i.vec hany
+            rcases hrf : revocationFinal i.vec with ⟨f, m⟩
+            rw [hrf] at h1 h2
+            simp only at h1 h2
+            subst h1 h2
+            simp only [List.all_eq_false] at hall'
+            simp only [List.any_eq_true, beq_iff_eq] at hany
+            simp [h3]
+            try grind
+          · have hany' : i.vec.any (· == R.revoked) = false := Bool.eq_false_iff.2 hany
+            obtain ⟨h1, n, r, h2, h3, h4⟩ := final_unknown i.vec hall' hany'
+            rcases hrf : revocationFinal i.vec with ⟨f, m⟩
+            rw [hrf] at h1 h2
+            simp only at h1 h2
+            subst h1 h2
+            simp only [List.all_eq_false] at hall'
+            simp only [List.any_eq_false, beq_iff_eq] at hany'
+            simp [h3, h4]
+            try grind
+      · have hfor := final_incomplete i.chainLen i.vec hlen
+        have hc : (i.vec.length == i.chainLen) = false := by simp [hlen]
+        rw [hfor]
+        simp [hc] <;> decide
 
 /-! ### readable consequences -/
 
 /-- the validator is consulted exactly once with the complete chain, through the interface the
 caller supplied, and gets the signing time only for signing-authority signatures -/
 theorem validator_args (i : Input) (h : i.action ≠ .skip) :
-    (run i).calls = 1 ∧ (run i).chainLen = some i.vec.length ∧ (run i).usedIface = some i.iface ∧
+    (run i).calls = 1 ∧ (run i).chainLen = some i.chainLen ∧ (run i).usedIface = some i.iface ∧
     (run i).signingTime = some (i.scheme == .signingAuthority) := by
   unfold run
   have : (i.action == Action.skip) = false := by simpa using h
   simp only [this, Bool.false_eq_true, if_false]
   cases i.validatorError <;> simp
-  rcases revocationFinal i.vec with ⟨f, n⟩
+  rcases revocationFinalFor i.chainLen i.vec with ⟨f, n⟩
   cases f <;> simp
 
 theorem validator_error_fails (i : Input) (h : i.action ≠ .skip) (he : i.validatorError = true) :
@@ -207,9 +227,14 @@ example : revocationFinal [.unknown, .revoked, .ok] = (.revoked, some 1) := by d
 example : revocationFinal [.nonRevokable, .ok] = (.ok, none) := by decide
 example : revocationFinal [.ok, .unknown, .unknown] = (.unknown, some 1) := by decide
 
-example : Holds { vec := [.unknown, .revoked], scheme := .x509, iface := .client, action := .enforce,
+example : Holds { vec := [.unknown, .revoked], chainLen := 2, scheme := .x509, iface := .client, action := .enforce,
                   validatorError := false, methods := [], serverErrors := [], identityPlugin := false }
     { outcome := .unknown, named := some 0, accepted := false, calls := 1, chainLen := some 2,
       signingTime := some false, usedIface := some .client } = false := by decide
+
+/-- a validator answering with one result for a chain of three never passes, even if that result is OK -/
+example : (run { vec := [.ok], chainLen := 3, scheme := .x509, iface := .validator, action := .enforce,
+                 validatorError := false, methods := [], serverErrors := [], identityPlugin := false }).outcome = .unknown := by
+  decide
 
 end NotationModel.C05
